@@ -545,11 +545,13 @@ func c20WUnits(thorough bool) []*explore.Unit {
 			}
 			ks = append(ks, st)
 		}
-		b := 1
-		if thorough {
-			b = 2
-		}
-		for _, k := range ks {
+		for i, k := range ks {
+			// (two further deviations on top of every split position do not complete within
+			// the thorough budget: every eighth position gets them)
+			b := 1
+			if thorough && i%8 == 0 {
+				b = 2
+			}
 			units = append(units, mkSplit(k, nil, b))
 		}
 		if os.Getenv("VERIF_DEBUG") != "" {
